@@ -321,7 +321,9 @@ def run_cases(ctx, cmd, cases, tag, timeout=1500, max_crashes=20):
     while start < len(cases):
         path = os.path.join(ctx.dir, 'in_%s.txt' % tag)
         write_cases(path, cases[start:], start)
+        t_run = time.time()
         rc, out, err = run_prog(cmd, path, timeout)
+        t_run = time.time() - t_run
         res, tg = split_out(out)
         results.update(res); tags.update(tg)
         done = max(res.keys()) if res else start - 1
@@ -337,6 +339,11 @@ def run_cases(ctx, cmd, cases, tag, timeout=1500, max_crashes=20):
             bad = max(done, start)
             results[bad] = results.get(bad, []) + ['crash:' + kind]
         crashes.append({'case': bad, 'kind': kind, 'stderr': err[-1500:]})
+        if rc == -999:
+            # a hang (the whole budget was used up by one case): the resumed runs get a budget in proportion to the work left,
+            # and two hangs end the stream - every further case is reported as not run
+            timeout = max(30, min(timeout, timeout // 8))
+            if sum(1 for c in crashes if c['kind'].startswith('timeout')) >= 2: max_crashes = len(crashes)
         if len(crashes) >= max_crashes:
             for k in range(bad + 1, len(cases)):
                 results.setdefault(k, ['not-run'])
@@ -450,7 +457,8 @@ def correspondence(ctx, name, impl_cmd, model_cmd, cases, nontrivial=None, keep_
 
     def report(i, k, la, lb, confirmed, why):
         case = cases[i]
-        if shrink and len(case) - keep_prefix > 1:
+        hang = any('crash:timeout' in str(l) for l in ((impl_raw if oraw else impl).get(i) or []))     # a hanging history is reported as it is (every shrinking step would hang again)
+        if shrink and not hang and len(case) - keep_prefix > 1:
             def fails(c):
                 try:
                     return fails0(c)
